@@ -53,6 +53,10 @@ Inductive case :=
              (cl serial : Z) (dts : bool) (dtsv : Z) (payload : payload_t) (stream : Z) (out : option bytes)
 | CConnUse (version : Z) (comp : bool) (session_cons : Z) (ks : bytes) (stream : Z) (out : bytes)
 | CConnPrepare (version : Z) (comp tracing : bool) (ks stmt : bytes) (stream : Z) (out : bytes)
+(* a frame of live traffic of a session that negotiated a real compression codec: [body] is what the
+   harness obtained from the bytes after the header with the real library ([] and [] when the frame is
+   not compressed) *)
+| CLiveZ (version : Z) (tracing : bool) (stream : Z) (r : request) (body zbody out : bytes)
 | CBatchGuard (version : Z) (refused : bool)       (* Conn.executeBatch refused the batch with ErrUnsupported *)
 | CTooBig (buflen : Z) (refused : bool).           (* finish returned ErrFrameTooBig for a buffer of this size *)
 
@@ -94,10 +98,10 @@ Definition align (r : request) (m : message) : request :=
   end.
 
 (* the model builds exactly these bytes, given the clock value and map order read off them *)
-Definition builds (v : Z) (comp tracing : bool) (stream : Z) (r : request) (b : bytes) : bool :=
-  let compf := if comp then Some test_comp else None in
+Definition builds_with (compf : option (bytes -> option bytes)) (decompf : bytes -> option bytes)
+           (v : Z) (tracing : bool) (stream : Z) (r : request) (b : bytes) : bool :=
   let '(r', now) :=
-    match decode_request test_decomp b with
+    match decode_request decompf b with
     | Some (_, m) => (align r m, decoded_now m)
     | None => (r, 0)
     end in
@@ -105,6 +109,15 @@ Definition builds (v : Z) (comp tracing : bool) (stream : Z) (r : request) (b : 
   | Ok b' => zlist_eqb b' b
   | _ => false
   end.
+
+Definition builds (v : Z) (comp tracing : bool) (stream : Z) (r : request) (b : bytes) : bool :=
+  builds_with (if comp then Some test_comp else None) test_decomp v tracing stream r b.
+
+(* a real codec observed on one body: Encode body = zbody (the harness decoded zbody with the real library) *)
+Definition observed_comp (body zbody : bytes) : bytes -> option bytes :=
+  fun x => if zlist_eqb x body then Some zbody else None.
+Definition observed_decomp (body zbody : bytes) : bytes -> option bytes :=
+  fun z => if zlist_eqb z zbody then Some body else None.
 
 Definition check (c : case) : bool :=
   match c with
@@ -122,6 +135,8 @@ Definition check (c : case) : bool :=
       | None, None => true
       | _, _ => false
       end
+  | CLiveZ v tracing stream r body zbody out =>
+      builds_with (Some (observed_comp body zbody)) (observed_decomp body zbody) v tracing stream r out
   | CConnUse v comp scons ks stream out => builds v comp false stream (conn_use_keyspace scons ks) out
   | CConnPrepare v comp tracing ks stmt stream out => builds v comp tracing stream (conn_prepare v ks stmt) out
   | CBatchGuard v refused => Bool.eqb (conn_batch_refused v) refused
